@@ -31,6 +31,8 @@ for d in sorted(ROOT.glob("C??")):
             lt = c.get("learn_tests")
             if lt:
                 cs += ("; learning tests %s/%s" % (lt.get("stable_passed"), lt.get("stable"))) if lt.get("completed") else ("; learning tests: run cut off by the time limit after %s of %s tests, %s/%s of the stable ones among them passed" % (lt["partial"]["finished"], lt["partial"]["of"], lt["partial"]["stable_finished_passed"], lt["partial"]["stable_finished"]) if lt.get("partial") else "; learning tests: run not completed")
+        if c is not None and c.get("learn_reruns"):
+            cs += "; reruns: " + c["learn_reruns"]
         summ = " ".join(str(meta.get("summary", "")).split())[:230].replace("|", "/")
         rows.append(f"| {d.name}/{suf} | {summ} | {res} | {cs} |")
 print("| seed | change (from the author's meta.json) | first quick run of the checks | confirmation (demo rc clean/patched, stable tests passing with the change) |")
